@@ -531,6 +531,10 @@ class World(object):
             if a is None:
                 self.bump("op_skipped")
                 return False
+        if status == "canceled" and not self.cancel_req:
+            # (H5) an action reports canceled only after a cancel request: not admissible here
+            self.bump("op_skipped")
+            return False
         x = a["x"]
         tid, route = a["task"], a["route"]
         if self.terminal_seen is not None:
@@ -765,6 +769,9 @@ class World(object):
         if self.status != "resuming":
             self.report("C17", "resuming", "accepted rerun left the workflow %s" % self.status)
         self.accepted_rerun = True
+        self.cancel_req = False
+        self.pause_req = False
+        self.ledger.cancel_requested = False
         self.ledger.reruns += 1
         self.rerun_offers_since = 0
         self.terminal_seen = None
@@ -1038,7 +1045,10 @@ class World(object):
         kf, tags = None, []
         asb = self.ledger.asbuilt_values(x.ref.idxs)
         f = self.p.get("_features") or set()
+        branches = getattr(getattr(x, "credit", None), "branches", None) or []
         if jeq(asb, vals) and len(x.parents) > 1:
+            kf, tags = "KF-stale-inherited-value-at-merge", ["stale_inherited_value_at_merge"]
+        elif len(branches) > 1 and all(stale_explains(d[0], d[2], x.ref, branches) for d in diffs):
             kf, tags = "KF-stale-inherited-value-at-merge", ["stale_inherited_value_at_merge"]
         elif "dict_republish" in f and any(isinstance(d[1], dict) or isinstance(d[2], dict) for d in diffs):
             kf, tags = "KF-dict-republish-deep-merge", ["dict_republish"]
@@ -1126,7 +1136,7 @@ class World(object):
                     f = self.p.get("_features") or set()
                     if "dict_republish" in f and (isinstance(exp, dict) or isinstance(got, dict)):
                         kf, tags = "KF-dict-republish-deep-merge", ["dict_republish"]
-                    elif self.terminal_merge_without_reapplication(name, spec_out, exp):
+                    elif vnode[0] == "ctx" and len(leaves) > 1 and stale_explains(vnode[1], got, fwd, leaves):
                         kf, tags = "KF-stale-inherited-value-at-merge", ["stale_inherited_value_at_merge",
                                                                           "terminal_merge"]
                     self.report("C06", "output_rendered", "output %s = %s, expected %s from the terminal contexts"
@@ -1142,6 +1152,20 @@ class World(object):
                     if not any(jeq(got, v) for v in written.get(vnode[1], [])):
                         self.report("C10", "output_rendered", "canceled workflow output %s = %s is none of the values "
                                     "written to %s" % (name, canon(got)[:100], vnode[1]))
+
+
+def stale_explains(var, observed, merged, branches):
+    """Precise signature of the known merge finding for one variable: the observed value is an
+    *older* write of the same variable -- one that the lineage of the expected value had already
+    seen -- and one of the merged branches still carried it as a merely inherited value."""
+    m = merged.vals.get(var)
+    for br in branches:
+        w = br.vals.get(var)
+        if w is None or (m is not None and w.wid == m.wid):
+            continue
+        if jeq(w.value, observed) and w.wid in merged.hist:
+            return True
+    return False
 
 
 def _dedupe_terminal_ctx(state):
